@@ -1,6 +1,6 @@
 (* Case runner for C13: decodes harness cases, runs the model of M_Elf, judges the implementation
    with the checkers of S_Elf. *)
-From PV Require Import M_Elf S_Elf.
+From PV Require Import M_Elf S_Elf M_ElfGlue S_ElfGlue.
 Open Scope Z_scope.
 
 Definition phdr_of (t : term) : phdr :=
@@ -128,6 +128,43 @@ Definition spec_conv_case (i o : term) : bool :=
   if String.eqb (gs (gn i 1)) "a2l" then spec_conv (conv_a2l_tool tab) base (conv_nm i) addrs rs
   else spec_conv_llvm (conv_llvm_tool tab) base addrs rs.
 
+(* ---- end-to-end worlds ---- *)
+Definition gfile_of (t : term) : gfile :=
+  {| gf_elf := elf_of (gn t 1); gf_syms := map sym_of (gl (gn t 2)); gf_buildid := gs (gn t 3) |}.
+Definition gmapping_of (t : term) : gmapping :=
+  {| gm_start := gz (gn t 0); gm_limit := gz (gn t 1); gm_offset := gz (gn t 2); gm_buildid := gs (gn t 3);
+     gm_rec := gz (gn t 4); gm_cands := gzs (gn t 5); gm_truth := gz (gn t 6); gm_bias := gz (gn t 7) |}.
+Definition gprofile_of (t : term) : gprofile :=
+  {| gp_scale := gz (gn t 0); gp_maps := map gmapping_of (gl (gn t 1));
+     gp_samples := map (fun s => (map (fun f => (Z.to_nat (gz (gn f 0)), gz (gn f 1))) (gl (gn s 0)), gz (gn s 1))) (gl (gn t 2)) |}.
+(* pprof merges the sources first, then the diff base *)
+Definition e2e_order (ps : list gprofile) : list gprofile :=
+  (filter (fun p => 0 <=? gp_scale p) ps ++ filter (fun p => gp_scale p <? 0) ps)%list.
+Definition of_agg (l : list (string * Z)) : term := TL (map (fun kv => TL [TS (fst kv); TZ (snd kv)]) l).
+Definition agg_of (t : term) : list (string * Z) := map (fun kv => (gs (gn kv 0), gz (gn kv 1))) (gl t).
+(* what each entry point shows of the named samples *)
+Definition e2e_views (format : string) (ns : list (list string * Z)) : list (list (string * Z)) :=
+  if String.eqb format "top" then [report_flat ns]
+  else if String.eqb format "interactive" then [report_flat ns; report_stacks ns; report_flat ns; report_stacks ns]
+  else if String.eqb format "web" then [report_flat ns; report_flat ns; report_flat ns]
+  else [report_stacks ns].
+Definition run_e2e (i : term) : term :=
+  let files := map gfile_of (gl (gn i 1)) in
+  let ps := e2e_order (map gprofile_of (gl (gn i 2))) in
+  TL (TS "ok" :: map of_agg (e2e_views (gs (gn i 4)) (named_samples files ps))).
+Fixpoint views_eqb (a : list (list (string * Z))) (b : list term) : bool :=
+  match a, b with
+  | [], [] => true
+  | x :: a', y :: b' => agg_eqb x (agg_of y) && views_eqb a' b'
+  | _, _ => false
+  end.
+Definition spec_e2e (i o : term) : bool :=
+  let files := map gfile_of (gl (gn i 1)) in
+  let ps := e2e_order (map gprofile_of (gl (gn i 2))) in
+  negb (world_in_scope files ps) ||
+  (String.eqb (gs (gn o 0)) "ok" &&
+   views_eqb (e2e_views (gs (gn i 4)) (truth_samples files ps)) (tl (gl o))).
+
 Definition run_C13 (i : term) : term :=
   let op := gs (gn i 0) in
   if String.eqb op "getbase" then
@@ -152,6 +189,7 @@ Definition run_C13 (i : term) : term :=
     TL (map (fun a => of_optname (addr_info tab a)) (gzs (gn i 3)))
   else if String.eqb op "maps" then TL []
   else if String.eqb op "conv" then run_conv i
+  else if String.eqb op "e2e" then run_e2e i
   else if String.eqb op "realsym" then TL (map (fun q => TS (gs (gn q 1))) (gl (gn i 2)))
   else if String.eqb op "session" then
     TL (map of_sobs (session_run (map elf_of (gl (gn i 1))) (map sev_of (gl (gn i 2)))))
@@ -197,6 +235,7 @@ Definition spec_C13 (i o : term) : bool :=
     forallb (fun ar => spec_addr_info tab (fst ar) (optname_of (snd ar))) (combine addrs (gl o))
   else if String.eqb op "session" then spec_session i o
   else if String.eqb op "conv" then spec_conv_case i o
+  else if String.eqb op "e2e" then spec_e2e i o
   else if String.eqb op "realsym" then
     (* real tools, real binary: the function reported for the address of main / hot is main / hot at
        every position of the conversation ("" = an address without symbol, answer not judged) *)
